@@ -668,12 +668,11 @@ Qed.
 (** ** what the sibling loop guarantees *)
 Lemma siblings_ok_sound m qs rinv rq cur s : forall keys,
   siblings_ok m qs rinv rq cur s keys = Ok true ->
-  forall k sib, In k keys -> lookup qs k = Some sib ->
+  forall k sib i, In k keys -> lookup qs k = Some sib -> aget (inv s) k = Some i ->
     same_parent sib rq = true -> q_id sib <> q_id rq ->
-    saturation_lower m (iunion (match aget (inv s) k with Some i => i | None => iempty end) rinv)
-                     cur (fair_vec rq) (cur_rem s sib) (fair_vec sib) = true.
+    saturation_lower m (iunion i rinv) cur (fair_vec rq) (cur_rem s sib) (fair_vec sib) = true.
 Proof.
-  induction keys as [|k0 keys IH]; intros H k sib Hin Hl Hsp Hne; [contradiction|].
+  induction keys as [|k0 keys IH]; intros H k sib i Hin Hl Hi Hsp Hne; [contradiction|].
   cbn [siblings_ok] in H.
   destruct (lookup qs k0) as [sib0|] eqn:E0; [|discriminate].
   destruct Hin as [->|Hin].
@@ -683,10 +682,13 @@ Proof.
             | None => match q_parent rq with Some _ => false | None => true end
             end) with (same_parent sib rq) in H.
     rewrite Hsp in H. apply Pos.eqb_neq in Hne. rewrite Hne in H. cbn [negb orb] in H.
+    rewrite Hi in H.
     destruct (saturation_lower _ _ _ _ _ _); [reflexivity|discriminate].
-  - apply IH; auto.
+  - apply (IH) with (k := k); auto.
     destruct (negb _ || _); [assumption|].
-    destruct (saturation_lower _ _ _ _ _ _); [assumption|discriminate].
+    destruct (aget (inv s) k0).
+    + destruct (saturation_lower _ _ _ _ _ _); [assumption|discriminate].
+    + destruct (isempty rinv); [assumption|discriminate].
 Qed.
 
 Lemma nodup_two {A B} (f : A -> B) X n Y b Z :
@@ -760,10 +762,10 @@ Proof.
 Qed.
 
 Definition good_level (m : Q) (qs : list queue) (rc : reclaimer) (sf : st) (a : queue) : Prop :=
-  forall k sib, In k (map fst (rem sf)) -> lookup qs k = Some sib ->
+  forall k sib i, In k (map fst (rem sf)) -> lookup qs k = Some sib -> aget (inv sf) k = Some i ->
     same_parent sib a = true -> q_id sib <> q_id a ->
     saturation_lower m
-      (iunion (match aget (inv sf) k with Some i => i | None => iempty end) (involved_names [rc_res rc]))
+      (iunion i (involved_names [rc_res rc]))
       (vadd (cur_rem sf a) (quantify (rc_res rc))) (fair_vec a) (cur_rem sf sib) (fair_vec sib) = true.
 
 Lemma boundaries_sat m qs rc f full sf :
@@ -787,10 +789,10 @@ Proof.
   assert (Hcur : cur_rem s a = cur_rem sf a) by (apply Hrem; assumption).
   destruct Hin as [<-|Hin].
   - (* this level *)
-    intros k sib Hk Hl Hsp Hne.
+    intros k sib i Hk Hl Hik Hsp Hne.
     assert (Hstsib : stored qs sib).
     { unfold stored. now rewrite (lookup_id _ _ _ Hl). }
-    pose proof (siblings_ok_sound _ _ _ _ _ _ _ Es k sib) as Hs.
+    pose proof (siblings_ok_sound _ _ _ _ _ _ _ Es k sib i) as Hs.
     unfold s' in Hs at 2. rewrite bump_inv, Hinv in Hs.
     assert (Hrs : cur_rem s' sib = cur_rem sf sib).
     { unfold s'. rewrite bump_cur_rem by assumption. apply Hrem; [assumption|].
@@ -819,6 +821,26 @@ Qed.
 (** ** which queues end up in the remaining-map, with which involved resources *)
 Definition has_inv (s : st) (id : qid) (r : rname) : Prop :=
   exists i, aget (inv s) id = Some i /\ imem i r = true.
+Definition has_entry (s : st) (id : qid) : Prop := exists i, aget (inv s) id = Some i.
+
+(** nothing is lost going from [s] to [s'] *)
+Definition keeps (s s' : st) : Prop :=
+  (forall id, In id (map fst (rem s)) -> In id (map fst (rem s'))) /\
+  (forall id, has_entry s id -> has_entry s' id) /\
+  (forall id r, has_inv s id r -> has_inv s' id r).
+
+(** queue [id] is in the remaining-map of [s] with at least the resources of [kinv] *)
+Definition marked (s : st) (kinv : iset) (id : qid) : Prop :=
+  In id (map fst (rem s)) /\ has_entry s id /\ (forall r, imem kinv r = true -> has_inv s id r).
+
+Lemma keeps_refl s : keeps s s.
+Proof. repeat split; auto. Qed.
+
+Lemma keeps_trans a b c : keeps a b -> keeps b c -> keeps a c.
+Proof. intros [A1 [A2 A3]] [B1 [B2 B3]]. repeat split; auto. Qed.
+
+Lemma keeps_marked s s' kinv id : keeps s s' -> marked s kinv id -> marked s' kinv id.
+Proof. intros [A1 [A2 A3]] [B1 [B2 B3]]. repeat split; auto. Qed.
 
 Lemma imem_iunion a b r : imem (iunion a b) r = imem a r || imem b r.
 Proof. destruct r; reflexivity. Qed.
@@ -836,73 +858,61 @@ Lemma imem_involved_names vs r :
   imem (involved_names vs) r = existsb (fun v => imem (involved_one v) r) vs.
 Proof. unfold involved_names. rewrite imem_fold. destruct r; reflexivity. Qed.
 
-Lemma sub_one_keys kinv amt s x id :
-  In id (map fst (rem s)) -> In id (map fst (rem (sub_one kinv amt s x))).
-Proof. intros H. unfold sub_one. cbn [rem]. apply aset_keys. now right. Qed.
-
-Lemma sub_one_key_self kinv amt s x : In (q_id x) (map fst (rem (sub_one kinv amt s x))).
-Proof. unfold sub_one. cbn [rem]. apply aset_keys. now left. Qed.
-
-Lemma sub_one_has_inv kinv amt s x id r :
-  has_inv s id r -> has_inv (sub_one kinv amt s x) id r.
+Lemma sub_one_keeps kinv amt s x : keeps s (sub_one kinv amt s x).
 Proof.
-  intros [i [Hi Hr]]. unfold has_inv, sub_one. cbn [inv].
-  destruct (Pos.eq_dec (q_id x) id) as [E|N].
-  - rewrite E, aget_aset_same, Hi. eexists. split; [reflexivity|]. now rewrite imem_iunion, Hr.
-  - rewrite aget_aset_other by assumption. eauto.
+  split; [|split].
+  - intros id H. unfold sub_one. cbn [rem]. apply aset_keys. now right.
+  - intros id [i Hi]. unfold has_entry, sub_one. cbn [inv].
+    destruct (Pos.eq_dec (q_id x) id) as [E|N].
+    + rewrite E, aget_aset_same. eauto.
+    + rewrite aget_aset_other by assumption. eauto.
+  - intros id r [i [Hi Hr]]. unfold has_inv, sub_one. cbn [inv].
+    destruct (Pos.eq_dec (q_id x) id) as [E|N].
+    + rewrite E, aget_aset_same, Hi. eexists. split; [reflexivity|]. now rewrite imem_iunion, Hr.
+    + rewrite aget_aset_other by assumption. eauto.
 Qed.
 
-Lemma sub_one_mark kinv amt s x r :
-  imem kinv r = true -> has_inv (sub_one kinv amt s x) (q_id x) r.
+Lemma sub_one_marked kinv amt s x : marked (sub_one kinv amt s x) kinv (q_id x).
 Proof.
-  intros H. unfold has_inv, sub_one. cbn [inv]. rewrite aget_aset_same.
-  eexists. split; [reflexivity|].
-  destruct (aget (inv s) (q_id x)); [rewrite imem_iunion, H; apply orb_true_r|assumption].
+  split; [|split].
+  - unfold sub_one. cbn [rem]. apply aset_keys. now left.
+  - unfold has_entry, sub_one. cbn [inv]. rewrite aget_aset_same. eauto.
+  - intros r H. unfold has_inv, sub_one. cbn [inv]. rewrite aget_aset_same.
+    eexists. split; [reflexivity|].
+    destruct (aget (inv s) (q_id x)); [rewrite imem_iunion, H; apply orb_true_r|assumption].
 Qed.
 
-Lemma subtract_keep kinv amt : forall ch s,
-  (forall id, In id (map fst (rem s)) -> In id (map fst (rem (subtract ch kinv amt s)))) /\
-  (forall id r, has_inv s id r -> has_inv (subtract ch kinv amt s) id r).
+Lemma subtract_keeps kinv amt : forall ch s, keeps s (subtract ch kinv amt s).
 Proof.
-  unfold subtract. induction ch as [|x ch IH]; intros s; cbn [fold_left]; [auto|].
-  destruct (IH (sub_one kinv amt s x)) as [H1 H2]. split.
-  - intros id H. apply H1. now apply sub_one_keys.
-  - intros id r H. apply H2. now apply sub_one_has_inv.
+  unfold subtract. induction ch as [|x ch IH]; intros s; cbn [fold_left]; [apply keeps_refl|].
+  eapply keeps_trans; [apply sub_one_keeps|apply IH].
 Qed.
 
-Lemma subtract_mark kinv amt : forall ch s x, In x ch ->
-  In (q_id x) (map fst (rem (subtract ch kinv amt s))) /\
-  (forall r, imem kinv r = true -> has_inv (subtract ch kinv amt s) (q_id x) r).
+Lemma subtract_marked kinv amt : forall ch s x, In x ch ->
+  marked (subtract ch kinv amt s) kinv (q_id x).
 Proof.
   induction ch as [|y ch IH]; intros s x Hin; [contradiction|].
   change (subtract (y :: ch) kinv amt s) with (subtract ch kinv amt (sub_one kinv amt s y)).
   destruct Hin as [->|Hin]; [|apply IH; assumption].
-  destruct (subtract_keep kinv amt ch (sub_one kinv amt s x)) as [H1 H2]. split.
-  - apply H1, sub_one_key_self.
-  - intros r Hr. apply H2. now apply sub_one_mark.
+  eapply keeps_marked; [apply subtract_keeps|apply sub_one_marked].
 Qed.
 
-Lemma victims_loop_keep rr rq eq ch kinv : forall vs s s',
-  victims_loop rr rq eq ch kinv vs s = (true, s') ->
-  (forall id, In id (map fst (rem s)) -> In id (map fst (rem s'))) /\
-  (forall id r, has_inv s id r -> has_inv s' id r).
+Lemma victims_loop_keeps rr rq eq ch kinv : forall vs s s',
+  victims_loop rr rq eq ch kinv vs s = (true, s') -> keeps s s'.
 Proof.
   induction vs as [|v vs IH]; intros s s' H; cbn [victims_loop] in H.
-  - injection H as <-. auto.
+  - injection H as <-. apply keeps_refl.
   - destruct (fits_strategy _ _ _ _); [|discriminate].
-    destruct (IH _ _ H) as [H1 H2].
-    destruct (subtract_keep kinv (quantify v) ch s) as [K1 K2]. split; auto.
+    eapply keeps_trans; [apply subtract_keeps|eapply IH; eauto].
 Qed.
 
-Lemma victims_loop_mark rr rq eq ch kinv vs s s' :
+Lemma victims_loop_marked rr rq eq ch kinv vs s s' :
   victims_loop rr rq eq ch kinv vs s = (true, s') -> vs <> [] ->
-  forall x, In x ch ->
-    In (q_id x) (map fst (rem s')) /\ (forall r, imem kinv r = true -> has_inv s' (q_id x) r).
+  forall x, In x ch -> marked s' kinv (q_id x).
 Proof.
   destruct vs as [|v vs]; [congruence|]. intros H _ x Hin. cbn [victims_loop] in H.
   destruct (fits_strategy _ _ _ _); [|discriminate].
-  destruct (victims_loop_keep _ _ _ _ _ _ _ _ H) as [H1 H2].
-  destruct (subtract_mark kinv (quantify v) ch s x Hin) as [M1 M2]. split; auto.
+  eapply keeps_marked; [eapply victims_loop_keeps; eauto|apply subtract_marked; assumption].
 Qed.
 
 Lemma touch_keys s q id : In id (map fst (rem s)) -> In id (map fst (rem (touch s q))).
@@ -918,21 +928,24 @@ Lemma step_key_track qs rc k vs s s' :
   step_key qs rc (k, vs) s = Ok (true, s') ->
   exists ch, chain_of qs k = Some ch /\
   (forall id, In id (map fst (rem s)) -> In id (map fst (rem s'))) /\
+  (forall id, has_entry s id -> has_entry s' id) /\
   (forall id r, id <> k -> has_inv s id r -> has_inv s' id r) /\
-  (vs <> [] -> forall x, In x ch ->
-     In (q_id x) (map fst (rem s')) /\
-     (forall r, imem (involved_names vs) r = true -> has_inv s' (q_id x) r)).
+  (vs <> [] -> forall x, In x ch -> marked s' (involved_names vs) (q_id x)).
 Proof.
   unfold step_key. intros H.
   destruct (leveled qs (rc_queue rc) k) as [[[rq eq]|]| |]; try discriminate.
   destruct (chain_of qs k) as [ch|]; [|discriminate]. injection H as H.
   exists ch. split; [reflexivity|].
-  destruct (victims_loop_keep _ _ _ _ _ _ _ _ H) as [K1 K2].
-  split; [|split].
+  destruct (victims_loop_keeps _ _ _ _ _ _ _ _ H) as [K1 [K2 K3]].
+  split; [|split; [|split]].
   - intros id Hid. apply K1. apply touch_keys. assumption.
-  - intros id r Hne [i [Hi Hr]]. apply K2. exists i. rewrite touch_inv. cbn [inv].
+  - intros id [i Hi]. apply K2. unfold has_entry. rewrite touch_inv. cbn [inv].
+    destruct (Pos.eq_dec k id) as [E|N].
+    + rewrite E, aget_aset_same. eauto.
+    + rewrite aget_aset_other by assumption. eauto.
+  - intros id r Hne [i [Hi Hr]]. apply K3. exists i. rewrite touch_inv. cbn [inv].
     rewrite aget_aset_other by congruence. auto.
-  - intros Hvs x Hx. eapply victims_loop_mark; eauto.
+  - intros Hvs x Hx. eapply victims_loop_marked; eauto.
 Qed.
 
 Lemma on_chain_in qs k ch sid :
@@ -943,7 +956,7 @@ Proof.
 Qed.
 
 Definition tracked (qs : list queue) (s : st) (dv : list (qid * list res)) : Prop :=
-  (forall sid, touched qs dv sid = true -> In sid (map fst (rem s))) /\
+  (forall sid, touched qs dv sid = true -> In sid (map fst (rem s)) /\ has_entry s sid) /\
   (forall sid r, spec_involved qs dv sid r = true -> has_inv s sid r).
 
 Lemma touched_snoc qs dv k vs sid :
@@ -974,7 +987,7 @@ Proof.
     cbn [reclaim_from] in H.
   - injection H as <-. rewrite app_nil_r. split; assumption.
   - destruct (step_key qs rc (k, vs) s) as [[[|] s1]| |] eqn:Es; try discriminate.
-    destruct (step_key_track _ _ _ _ _ _ Es) as [ch [Hch [T1 [T2 T3]]]].
+    destruct (step_key_track _ _ _ _ _ _ Es) as [ch [Hch [T1 [T1' [T2 T3]]]]].
     cbn [map fst antichain_keys] in Hanti. apply andb_true_iff in Hanti as [Hhead Hanti].
     rewrite forallb_forall in Hhead.
     replace (dv ++ (k, vs) :: victims) with ((dv ++ [(k, vs)]) ++ victims)
@@ -986,10 +999,11 @@ Proof.
         apply andb_true_iff in Hhead as [Hh _]. now apply negb_true_iff in Hh.
     + split.
       * intros sid Ht. rewrite touched_snoc in Ht. apply orb_true_iff in Ht as [Ht|Ht].
-        -- apply T1, HK, Ht.
+        -- destruct (HK _ Ht) as [A B]. split; [apply T1, A|apply T1', B].
         -- apply andb_true_iff in Ht as [Hoc Hne].
            destruct (on_chain_in _ _ _ _ Hch Hoc) as [x [Hx <-]].
-           apply T3; [|assumption]. destruct vs; [discriminate|congruence].
+           assert (Hvs : vs <> []) by (destruct vs; [discriminate|congruence]).
+           destruct (T3 Hvs x Hx) as [A [B _]]. auto.
       * intros sid r Hi. rewrite spec_involved_snoc in Hi. apply orb_true_iff in Hi as [Hi|Hi].
         -- apply T2; [|apply HP, Hi].
            intros ->. destruct (spec_involved_on_chain _ _ _ _ Hi) as [kv' [Hin Hoc]].
@@ -997,9 +1011,8 @@ Proof.
            rewrite Hf in Hoc. discriminate.
         -- apply andb_true_iff in Hi as [Hoc Hex].
            destruct (on_chain_in _ _ _ _ Hch Hoc) as [x [Hx <-]].
-           apply T3; [|assumption|].
-           ++ destruct vs; [discriminate|congruence].
-           ++ now rewrite imem_involved_names.
+           assert (Hvs : vs <> []) by (destruct vs; [discriminate|congruence]).
+           destruct (T3 Hvs x Hx) as [_ [_ C]]. apply C. now rewrite imem_involved_names.
 Qed.
 
 Lemma tracked_st0 qs : tracked qs st0 [].
@@ -1075,12 +1088,14 @@ Proof.
   { eapply (boundaries_sat m qs rc _ ch sf Ec ch [] sf); eauto.
     split; [|split]; [reflexivity| |reflexivity]. auto. }
   assert (Hsta : stored qs a) by (eapply chain_lookup; eauto).
-  specialize (Hgood (q_id s) s (HK _ Ht) Hs Hsp Hne).
+  destruct (HK _ Ht) as [Hkey [i Hi]].
+  specialize (Hgood (q_id s) s i Hkey Hs Hi Hsp Hne).
   rewrite (Hcons a Hsta), (Hcons s Hs) in Hgood.
   apply (saturation_lower_sound _ _ _ _ _ _ r) in Hgood.
   - rewrite (sat_violation_caught _ _ _ _ _ Hm Hviol) in Hgood. discriminate.
   - rewrite imem_iunion. destruct Hr as [Hr|Hr].
-    + destruct (HP _ _ Hr) as [i [Hi Hir]]. rewrite Hi, Hir. reflexivity.
+    + destruct (HP _ _ Hr) as [i' [Hi' Hir]]. rewrite Hi in Hi'. injection Hi' as <-.
+      now rewrite Hir.
     + rewrite imem_involved_names. cbn [existsb]. rewrite Hr. cbn. apply orb_true_r.
 Qed.
 
